@@ -13,7 +13,7 @@ variable {P : Type}
 
 /-- **C03 (value).** Searched with the full window `(negInf, inf)`, `alphabeta` returns exactly the plain
     negamax value `V` of the position. -/
-theorem exact (g : Game P) (ex : Explore) (le : LeafEval) (rootPly : Int) (hev : EvalOk g)
+theorem exact (g : Game P) (ex : P → Explore) (le : LeafEval P) (rootPly : Int) (hev : EvalOk g)
     (d : Nat) (hd : leafGrade le + d ≤ 127)
     (p : P) (st : SState) (htt : st.tt.slots.size = 0) (hc : st.cancelAt = none) :
     (alphabeta g ex le rootPly d p negInfScore infScore st).1 = V g ex le rootPly d p := by
@@ -29,7 +29,7 @@ theorem exact (g : Game P) (ex : Explore) (le : LeafEval) (rootPly : Int) (hev :
   exact rank_injective _ _ hr.1 hv.1 this
 
 /-- A path has at most `n` moves. -/
-theorem path_length (g : Game P) (ex : Explore) : ∀ (n : Nat) (p : P) (pv : List Move),
+theorem path_length (g : Game P) (ex : P → Explore) : ∀ (n : Nat) (p : P) (pv : List Move),
     Path g ex n p pv → pv.length ≤ n := by
   intro n
   induction n with
@@ -45,18 +45,18 @@ theorem path_length (g : Game P) (ex : Explore) : ∀ (n : Nat) (p : P) (pv : Li
       simp only [List.length_cons]; omega
 
 /-- **C03 (principal variation).** At the full window the returned PV
-    (1) is a path: each move is an explored (`ex.pick`) legal (`g.push … = some _`) move from the position
+    (1) is a path: each move is an explored (`(ex p).pick`) legal (`g.push … = some _`) move from the position
         reached by the previous ones (`Path`), so in particular
     (2) it has at most `d` moves; and
     (3) if `d = d' + 1` and the PV is `m :: rest`, then `m` leads to a child `c` that attains the value:
         `lift (V … d' c) = V … (d' + 1) p`, and `rest` is a path from `c`. -/
-theorem pv (g : Game P) (ex : Explore) (le : LeafEval) (rootPly : Int) (hev : EvalOk g)
+theorem pv (g : Game P) (ex : P → Explore) (le : LeafEval P) (rootPly : Int) (hev : EvalOk g)
     (d : Nat) (hd : leafGrade le + d ≤ 127)
     (p : P) (st : SState) (htt : st.tt.slots.size = 0) (hc : st.cancelAt = none) :
     Path g ex d p (alphabeta g ex le rootPly d p negInfScore infScore st).2.1 ∧
     (alphabeta g ex le rootPly d p negInfScore infScore st).2.1.length ≤ d ∧
     ∀ d' m rest, d = d' + 1 → (alphabeta g ex le rootPly d p negInfScore infScore st).2.1 = m :: rest →
-      ∃ c, g.push p m = some c ∧ ex.pick m = true ∧ Path g ex d' c rest ∧
+      ∃ c, g.push p m = some c ∧ (ex p).pick m = true ∧ Path g ex d' c rest ∧
         lift (V g ex le rootPly d' c) = V g ex le rootPly (d' + 1) p := by
   have ha : okN (leafGrade le + d) negInfScore := okN_mono okN_negInf (by omega)
   have hb : okN (leafGrade le + d) infScore := okN_mono okN_inf (by omega)
@@ -77,7 +77,7 @@ theorem pv (g : Game P) (ex : Explore) (le : LeafEval) (rootPly : Int) (hev : Ev
 
 /-- **C03 (the whole PV is principal).** At the full window every move of the returned PV — not only the
     first — attains the negamax value of the position it is played in (`Principal`, which implies `Path`). -/
-theorem pv_principal (g : Game P) (ex : Explore) (le : LeafEval) (rootPly : Int) (hev : EvalOk g)
+theorem pv_principal (g : Game P) (ex : P → Explore) (le : LeafEval P) (rootPly : Int) (hev : EvalOk g)
     (d : Nat) (hd : leafGrade le + d ≤ 127)
     (p : P) (st : SState) (htt : st.tt.slots.size = 0) (hc : st.cancelAt = none) :
     Principal g ex le rootPly d p (alphabeta g ex le rootPly d p negInfScore infScore st).2.1 := by
@@ -87,7 +87,7 @@ theorem pv_principal (g : Game P) (ex : Explore) (le : LeafEval) (rootPly : Int)
     negInfScore infScore st htt hc ha hb).2.2.2.1 (exact g ex le rootPly hev d hd p st htt hc)
 
 /-- A principal variation is in particular a path. -/
-theorem principal_path (g : Game P) (ex : Explore) (le : LeafEval) (rootPly : Int) :
+theorem principal_path (g : Game P) (ex : P → Explore) (le : LeafEval P) (rootPly : Int) :
     ∀ (n : Nat) (p : P) (pv : List Move), Principal g ex le rootPly n p pv → Path g ex n p pv := by
   intro n
   induction n with
@@ -104,7 +104,7 @@ theorem principal_path (g : Game P) (ex : Explore) (le : LeafEval) (rootPly : In
 /-- **C03 (`AlphaBeta.Search`).** Started without a window in the search context (both bounds invalid, i.e.
     the full window), without table and cancellation, `alphaBetaSearch` reports the negamax value of the
     root (`rootPly = g.ply p`, the root is searched even if it is a drawn position) and the PV above. -/
-theorem search_exact (g : Game P) (ex : Explore) (le : LeafEval) (hev : EvalOk g)
+theorem search_exact (g : Game P) (ex : P → Explore) (le : LeafEval P) (hev : EvalOk g)
     (d : Nat) (hd : leafGrade le + d ≤ 127)
     (p : P) (st : SState) (htt : st.tt.slots.size = 0) (hc : st.cancelAt = none) :
     ∃ n, (alphaBetaSearch g ex le p d invalidScore invalidScore st).1 =
@@ -125,7 +125,7 @@ theorem search_exact (g : Game P) (ex : Explore) (le : LeafEval) (hev : EvalOk g
     At a position that is the search root (`g.ply p = rootPly`) or not drawn, searched to depth `d + 1 ≥ 1` with
     the full window: if some move is legal and the negamax value is not `negInf` (i.e. some explored legal move
     is better than being mated at once), the returned PV is non-empty - so its head is a best move (`pv`). -/
-theorem pv_nonempty (g : Game P) (ex : Explore) (le : LeafEval) (rootPly : Int) (hev : EvalOk g)
+theorem pv_nonempty (g : Game P) (ex : P → Explore) (le : LeafEval P) (rootPly : Int) (hev : EvalOk g)
     (d : Nat) (hd : leafGrade le + (d + 1) ≤ 127)
     (p : P) (st : SState) (htt : st.tt.slots.size = 0) (hc : st.cancelAt = none)
     (hroot : g.ply p = rootPly ∨ g.isDraw p = false)
@@ -144,7 +144,7 @@ theorem pv_nonempty (g : Game P) (ex : Explore) (le : LeafEval) (rootPly : Int) 
 
 /-- `pv_nonempty` for `AlphaBeta.Search`: the reported PV is non-empty for `d ≥ 1` if a move is legal at the root
     and the value is not `negInf`. -/
-theorem search_pv_nonempty (g : Game P) (ex : Explore) (le : LeafEval) (hev : EvalOk g)
+theorem search_pv_nonempty (g : Game P) (ex : P → Explore) (le : LeafEval P) (hev : EvalOk g)
     (d : Nat) (hd : leafGrade le + (d + 1) ≤ 127)
     (p : P) (st : SState) (htt : st.tt.slots.size = 0) (hc : st.cancelAt = none)
     (hl : legalAny g p (g.moves p) = true) (hV : V g ex le (g.ply p) (d + 1) p ≠ negInfScore) :
@@ -200,30 +200,30 @@ further hypotheses. Depth 3 with quiescence leaves of fuel 64 is the driver's co
 
 section Chess
 
-example : (alphabeta gX fullExploration (.quiescence capX 64) 1 3 wE negInfScore infScore {}).1 =
-    V gX fullExploration (.quiescence capX 64) 1 3 wE :=
-  exact gX fullExploration (.quiescence capX 64) 1 gX_evalOk 3 (by decide) wE {} rfl rfl
+example : (alphabeta gX fullX (.quiescence capX 64) 1 3 wE negInfScore infScore {}).1 =
+    V gX fullX (.quiescence capX 64) 1 3 wE :=
+  exact gX fullX (.quiescence capX 64) 1 gX_evalOk 3 (by decide) wE {} rfl rfl
 
-example : Principal gX fullExploration (.quiescence capX 64) 1 3 wE
-      (alphabeta gX fullExploration (.quiescence capX 64) 1 3 wE negInfScore infScore {}).2.1 ∧
-    (alphabeta gX fullExploration (.quiescence capX 64) 1 3 wE negInfScore infScore {}).2.1.length ≤ 3 :=
-  ⟨pv_principal gX fullExploration (.quiescence capX 64) 1 gX_evalOk 3 (by decide) wE {} rfl rfl,
-   (pv gX fullExploration (.quiescence capX 64) 1 gX_evalOk 3 (by decide) wE {} rfl rfl).2.1⟩
+example : Principal gX fullX (.quiescence capX 64) 1 3 wE
+      (alphabeta gX fullX (.quiescence capX 64) 1 3 wE negInfScore infScore {}).2.1 ∧
+    (alphabeta gX fullX (.quiescence capX 64) 1 3 wE negInfScore infScore {}).2.1.length ≤ 3 :=
+  ⟨pv_principal gX fullX (.quiescence capX 64) 1 gX_evalOk 3 (by decide) wE {} rfl rfl,
+   (pv gX fullX (.quiescence capX 64) 1 gX_evalOk 3 (by decide) wE {} rfl rfl).2.1⟩
 
-example : ∃ n, (alphaBetaSearch gX fullExploration (.quiescence capX 64) wE 3 invalidScore invalidScore {}).1 =
-    some ⟨n, V gX fullExploration (.quiescence capX 64) (gX.ply wE) 3 wE,
-      (alphabeta gX fullExploration (.quiescence capX 64) (gX.ply wE) 3 wE negInfScore infScore
+example : ∃ n, (alphaBetaSearch gX fullX (.quiescence capX 64) wE 3 invalidScore invalidScore {}).1 =
+    some ⟨n, V gX fullX (.quiescence capX 64) (gX.ply wE) 3 wE,
+      (alphabeta gX fullX (.quiescence capX 64) (gX.ply wE) 3 wE negInfScore infScore
         { ({} : SState) with nodes := 0 }).2.1⟩ :=
-  search_exact gX fullExploration (.quiescence capX 64) gX_evalOk 3 (by decide) wE {} rfl rfl
+  search_exact gX fullX (.quiescence capX 64) gX_evalOk 3 (by decide) wE {} rfl rfl
 
 set_option maxRecDepth 100000 in
 /-- `pv_nonempty` / `search_pv_nonempty`: `wE` has a legal move and its depth-1 value is `+14`, not `negInf`. -/
-example : (alphabeta gX fullExploration .static 1 1 wE negInfScore infScore {}).2.1 ≠ [] ∧
-    ∃ n m rest, (alphaBetaSearch gX fullExploration .static wE 1 invalidScore invalidScore {}).1 =
-      some ⟨n, V gX fullExploration .static (gX.ply wE) 1 wE, m :: rest⟩ :=
-  ⟨pv_nonempty gX fullExploration .static 1 gX_evalOk 0 (by decide) wE {} rfl rfl (Or.inl wE_ply) wE_legal
+example : (alphabeta gX fullX .static 1 1 wE negInfScore infScore {}).2.1 ≠ [] ∧
+    ∃ n m rest, (alphaBetaSearch gX fullX .static wE 1 invalidScore invalidScore {}).1 =
+      some ⟨n, V gX fullX .static (gX.ply wE) 1 wE, m :: rest⟩ :=
+  ⟨pv_nonempty gX fullX .static 1 gX_evalOk 0 (by decide) wE {} rfl rfl (Or.inl wE_ply) wE_legal
       (by decide +kernel),
-   search_pv_nonempty gX fullExploration .static gX_evalOk 0 (by decide) wE {} rfl rfl wE_legal (by decide +kernel)⟩
+   search_pv_nonempty gX fullX .static gX_evalOk 0 (by decide) wE {} rfl rfl wE_legal (by decide +kernel)⟩
 
 end Chess
 
